@@ -333,11 +333,37 @@ fn exec_decompressor(s: &Script, st: &mut Stats) -> Result<RunInfo, Violation> {
     Ok(RunInfo { hash: h.0, nontrivial: true })
 }
 
+/// Two equal call sequences on two fresh objects give equal bytes: any script of the other scenarios
+/// is executed twice in the same process with different heap contents in between.
+fn exec_determinism(s: &Script, st: &mut Stats) -> Result<RunInfo, Violation> {
+    let run = |st: &mut Stats| -> Result<RunInfo, Violation> {
+        match s.scen.as_str() {
+            "pipe" => crate::pipe::exec(s, st),
+            "dec" => crate::dec::exec(s, st),
+            "inflate-proto" => crate::proto::exec_inflate_proto(s, st),
+            _ => crate::proto::exec_deflate_proto(s, st),
+        }
+    };
+    let a = run(st)?;
+    // perturb the heap: different addresses and stale contents for the second execution
+    let junk: Vec<Vec<u8>> = (0..(1 + s.c("junk") as usize % 9)).map(|i| vec![(0x30 + i) as u8; 777 * (i + 1) + 4096 * (s.c("junk") as usize % 5)]).collect();
+    let keep = junk.len();
+    let b = run(st)?;
+    drop(junk);
+    if a.hash != b.hash {
+        return viol("C18.deterministic", format!("the same script executed twice on fresh objects gave event-log hashes {:016x} and {:016x} ({} junk allocations in between)", a.hash, b.hash, keep));
+    }
+    st.inc("probe.determinism_pairs");
+    Ok(RunInfo { hash: a.hash, nontrivial: a.nontrivial })
+}
+
 pub fn exec(s: &Script, st: &mut Stats) -> Result<RunInfo, Violation> {
     match s.c("object") {
         0 => exec_compressor(s, st),
         1 => exec_inflate_state(s, st),
-        _ => exec_decompressor(s, st),
+        2 => exec_decompressor(s, st),
+        3 => crate::cabi::exec(s, st),
+        _ => exec_determinism(s, st),
     }
 }
 
@@ -351,7 +377,46 @@ fn tag(ops: Vec<Vec<i64>>, t: i64) -> Vec<Vec<i64>> {
         .collect()
 }
 
-pub fn gen_c18(rng: &mut Rng, _i: u64, _tier: Tier) -> Script {
+pub fn gen_c18(rng: &mut Rng, i: u64, tier: Tier) -> Script {
+    match rng.below(12) {
+        0 => {
+            // C deflate stream: mz_deflateReset in the middle of a stream, lock step with a FRESH compressor
+            let mut r2 = rng.fork();
+            let mut s = crate::cabi::gen_c17(&mut r2, i, tier);
+            for _ in 0..60 {
+                if s.c("family") == 0 {
+                    break;
+                }
+                s = crate::cabi::gen_c17(&mut r2, i, tier);
+            }
+            let nops = s.ops.len();
+            if nops > 0 {
+                for _ in 0..r2.range(1, 3) {
+                    let k = r2.usize_below(nops);
+                    if s.ops[k].len() > 3 {
+                        s.ops[k][3] = 1;
+                    }
+                }
+            }
+            s.prop = "C18".into();
+            s.set("object", 3);
+            return s;
+        }
+        1 => {
+            let mut r2 = rng.fork();
+            let mut s = match r2.below(4) {
+                0 => crate::props_pipe::gen_c02(&mut r2, i, tier),
+                1 => crate::props_dec::gen_c04(&mut r2, i, tier),
+                2 => crate::props_proto::gen_c13(&mut r2, u64::MAX / 2, tier),
+                _ => crate::props_proto::gen_c14(&mut r2, u64::MAX / 2, tier),
+            };
+            s.prop = "C18".into();
+            s.set("object", 4);
+            s.set("junk", r2.below(40) as i64);
+            return s;
+        }
+        _ => {}
+    }
     let mut s = Script::new("C18", "reuse");
     let object = rng.pick(&[0i64, 0, 1, 1, 2]);
     s.set("object", object);
@@ -494,7 +559,7 @@ pub fn defs() -> Vec<CheckDef> {
         block: 256,
         gen: gen_c18,
         exec,
-        rule: "run = object {CompressorOxide + reset(), InflateState + reset / MinReset / ZeroReset / FullReset, DecompressorOxide + init()} x prior history (a stream cut at an arbitrary call: mid-block, pending output, after any flush; a completed stream; a corrupt stream; an error state: non-Finish after Finish, failing callback, Finish misuse) x a different subsequent script (valid or corrupt stream, incl. distances reaching before the stream's own start), executed in lock step with a fresh object and with a second fresh object created after junk allocations (determinism); oracle: identical (status, consumed, written) and bytes after every call; non-trivial = non-empty prior history; distinct = shape fingerprint",
+        rule: "run = object {CompressorOxide + reset(), InflateState + reset / MinReset / ZeroReset / FullReset, DecompressorOxide + init(), C deflate stream + mz_deflateReset (cabi lock step with a fresh compressor), or any pipe/dec/protocol script executed twice with junk allocations in between (determinism)} x prior history (a stream cut at an arbitrary call: mid-block, pending output, after any flush; a completed stream; a corrupt stream; an error state: non-Finish after Finish, failing callback, Finish misuse) x a different subsequent script (valid or corrupt stream, incl. distances reaching before the stream's own start), executed in lock step with a fresh object and with a second fresh object created after junk allocations (determinism); oracle: identical (status, consumed, written) and bytes after every call; non-trivial = non-empty prior history; distinct = shape fingerprint",
         shrink_cfg: &["junk"],
         shrink_blobs: false,
         assumptions: &["byte-for-byte comparison with a freshly constructed object of the same settings", "x86-64 only; seeded sampling of histories"],
